@@ -1,5 +1,6 @@
 import sys
 import logging
+from inspect import isabstract
 from jax import vmap, jacfwd
 from jax.numpy import expand_dims, reshape, where
 from abc import ABC, abstractmethod
@@ -12,6 +13,29 @@ from .util import make_serializable, deserialize, select_active_dims, expand_to_
 MELLON_NAME = __name__.split(".")[0]
 
 logger = logging.getLogger("mellon")
+
+
+def _state_field(state, key, kind=None):
+    """Read a required field of a serialized kernel, refusing a malformed state with ValueError."""
+    if key not in state:
+        raise ValueError(f"The serialized covariance kernel is missing the field '{key}'.")
+    value = state[key]
+    if kind is not None and not isinstance(value, kind):
+        raise ValueError(
+            f"The field '{key}' of the serialized covariance kernel should be of type "
+            f"{kind.__name__} but is of type {type(value).__name__}."
+        )
+    return value
+
+
+def _deserialize_field(value, key):
+    """Deserialize a stored value, refusing a malformed record with ValueError."""
+    try:
+        return deserialize(value)
+    except Exception as e:
+        raise ValueError(
+            f"The value of '{key}' in the serialized covariance kernel is malformed: {e!r}"
+        ) from e
 
 
 class Covariance(ABC):
@@ -162,9 +186,9 @@ class Covariance(ABC):
         :param state: A dictionary representing the state of the predictor.
         :type state: dict
         """
-        data = state["data"]
+        data = _state_field(state, "data", dict)
         for name, value in data.items():
-            val = deserialize(value)
+            val = _deserialize_field(value, name)
             setattr(self, name, val)
 
     def to_json(self):
@@ -210,14 +234,30 @@ class Covariance(ABC):
             raise ValueError(
                 "The passed dict does not seem to define a covariance kernel."
             )
-        clsname = state["metadata"]["classname"]
-        module_name = state["metadata"]["module_name"]
+        metadata = _state_field(state, "metadata", dict)
+        clsname = _state_field(metadata, "classname", str)
+        module_name = _state_field(metadata, "module_name", str)
 
         if clsname in globals():
             Subclass = globals()[clsname]
         else:
-            module = import_module(module_name)
-            Subclass = getattr(module, clsname)
+            try:
+                module = import_module(module_name)
+                Subclass = getattr(module, clsname)
+            except Exception as e:
+                raise ValueError(
+                    f'The covariance function "{clsname}" was not found in the module '
+                    f'"{module_name}": {e!r}'
+                ) from e
+        if (
+            not isinstance(Subclass, type)
+            or not issubclass(Subclass, Covariance)
+            or isabstract(Subclass)
+        ):
+            raise ValueError(
+                f'"{clsname}" of the module "{module_name}" is not a covariance function '
+                "that can be deserialized."
+            )
         instance = Subclass.__new__(Subclass)
         instance.__setstate__(state)
 
@@ -287,15 +327,18 @@ class CovariancePair(Covariance):
             raise ValueError(
                 "The passed dict does not seem to define a covariance kernel."
             )
-        self.left = Covariance.from_dict(state["left_data"])
+        self.left = Covariance.from_dict(_state_field(state, "left_data"))
+        right_data = _state_field(state, "right_data")
         if (
-            isinstance(state["right_data"], dict)
-            and state["right_data"].get("type") == "mellon.Covariance"
+            isinstance(right_data, dict)
+            and right_data.get("type") == "mellon.Covariance"
         ):
-            self.right = Covariance.from_dict(state["right_data"])
+            self.right = Covariance.from_dict(right_data)
         else:
-            self.right = deserialize(state["right_data"])
-        self.active_dims = deserialize(state.get("active_dims", None))
+            self.right = _deserialize_field(right_data, "right_data")
+        self.active_dims = _deserialize_field(
+            state.get("active_dims", None), "active_dims"
+        )
 
 
 class Add(CovariancePair):
